@@ -2,9 +2,11 @@ import Driver.Latch
 import Driver.LockFam
 import Driver.Barrier
 import Driver.DD
+import Driver.Deferred
+import Driver.TripWire
 open Driver
 
-def comps : List Comp := [LatchD.comp, LockFamD.comp, BarrierD.comp, DDD.comp]
+def comps : List Comp := [LatchD.comp, LockFamD.comp, BarrierD.comp, DDD.comp, DeferredD.comp, TripWireD.comp]
 
 def main (args : List String) : IO UInt32 := do
   match args with
